@@ -214,3 +214,102 @@ Section Upgrade2.
     rewrite Hr, (dead_never_upgrades b E [] m o x HI Hk ltac:(lia) Hx Hc). reflexivity.
   Qed.
 End Upgrade2.
+
+(** ** C09: the weak count and the life of the side record *)
+Section Weak.
+  Context (K : conf).
+  Implicit Types (m : machine) (o : id) (x : obj).
+
+  Lemma cnt_wr_nil o : cnt_wr o [] = 0%nat.
+  Proof. reflexivity. Qed.
+
+  (** the side record of an allocated box: present iff a Weak was ever created, never freed,
+      accessible, and its counter is exactly the number of existing Weak handles *)
+  Lemma weak_count_exact_W b E W m o x :
+    SInv K b E W m -> get m o = Some x -> o_box x = BAlloc ->
+    match o_side x with
+    | Some s => w_cnt (sd_wk s) = N.of_nat (wrefs m o + cnt_wr o W) /\ sd_freed s = false /\
+                w_acc (sd_wk s) = true /\ h_side (o_hdr x) = true /\ w_cnt (sd_wk s) <= max_weak
+    | None => (wrefs m o + cnt_wr o W = 0)%nat /\ h_side (o_hdr x) = false
+    end.
+  Proof.
+    intros HI Hx Hb. destruct (okN_alloc K _ _ _ _ _ (sv_obj _ _ _ _ _ HI _ _ Hx) Hb) as (_ & _ & _ & _ & O5 & _).
+    destruct (o_side x) as [s|]; [destruct O5 as (S1 & S2 & S3 & S4 & S5) | destruct O5 as (S1 & S2)]; auto.
+  Qed.
+  Lemma weak_count_exact b E m o x :
+    SInv K b E [] m -> get m o = Some x -> o_box x = BAlloc ->
+    match o_side x with
+    | Some s => w_cnt (sd_wk s) = N.of_nat (wrefs m o) /\ sd_freed s = false /\ w_acc (sd_wk s) = true
+    | None => wrefs m o = 0%nat
+    end.
+  Proof.
+    intros HI Hx Hb. pose proof (weak_count_exact_W b E [] m o x HI Hx Hb) as H.
+    rewrite cnt_wr_nil, Nat.add_0_r in H. destruct (o_side x) as [s|]; [destruct H as (? & ? & ? & _); auto | apply H].
+  Qed.
+
+  (** while a Weak handle exists, the side record exists and was not freed, whether the box is
+      still allocated (accessible) or already freed (not accessible any more) *)
+  Lemma side_alive_while_weak_freed b E m o x :
+    SInv K b E [] m -> get m o = Some x -> o_box x = BFreed -> (0 < wrefs m o)%nat ->
+    exists s, o_side x = Some s /\ sd_freed s = false /\ w_cnt (sd_wk s) = N.of_nat (wrefs m o) /\
+              w_acc (sd_wk s) = false.
+  Proof.
+    intros HI Hx Hb Hpos. pose proof (sv_obj _ _ _ _ _ HI _ _ Hx) as Hok. rewrite cnt_wr_nil, Nat.add_0_r in Hok.
+    apply okN_freed in Hok; [|exact Hb]. destruct Hok as (_ & _ & Hs).
+    destruct (o_side x) as [s|]; [|lia]. destruct (sd_freed s) eqn:Ef; [lia|].
+    destruct Hs as (S1 & S2 & S3). exists s. auto.
+  Qed.
+  Lemma side_alive_while_weak_alloc b E m o x :
+    SInv K b E [] m -> get m o = Some x -> o_box x = BAlloc -> (0 < wrefs m o)%nat ->
+    exists s, o_side x = Some s /\ sd_freed s = false /\ w_cnt (sd_wk s) = N.of_nat (wrefs m o) /\
+              w_acc (sd_wk s) = true.
+  Proof.
+    intros HI Hx Hb Hpos. pose proof (weak_count_exact b E m o x HI Hx Hb) as H.
+    destruct (o_side x) as [s|]; [|lia]. destruct H as (? & ? & ?). exists s. auto.
+  Qed.
+  (** a side record that was freed has no Weak handle left and belongs to a freed box: it is
+      never used again *)
+  Lemma side_freed_no_weak b E m o x s :
+    SInv K b E [] m -> get m o = Some x -> o_box x <> BNotYet -> o_side x = Some s -> sd_freed s = true ->
+    wrefs m o = 0%nat /\ o_box x = BFreed.
+  Proof.
+    intros HI Hx Hny Hs Hf. pose proof (sv_obj _ _ _ _ _ HI _ _ Hx) as Hok. rewrite cnt_wr_nil, Nat.add_0_r in Hok.
+    destruct (o_box x) eqn:Hb; [congruence | |].
+    - destruct (okN_alloc K _ _ _ _ _ Hok Hb) as (_ & _ & _ & _ & O5 & _). rewrite Hs in O5. destruct O5 as (_ & O5 & _). congruence.
+    - apply okN_freed in Hok; [|exact Hb]. destruct Hok as (_ & _ & H). rewrite Hs, Hf in H. auto.
+  Qed.
+
+  (** [Weak::weak_count] on an existing Weak handle: no event, the exact number *)
+  Lemma weak_weak_count_exact b E W m o :
+    SInv K b E W m -> (0 < wrefs m o + cnt_wr o W)%nat ->
+    weak_weak_count (WTo o) m = (m, N.of_nat (wrefs m o + cnt_wr o W)).
+  Proof.
+    intros HI Hpos. destruct (sv_wex _ _ _ _ _ HI o Hpos) as [x Hx].
+    pose proof (sv_obj _ _ _ _ _ HI _ _ Hx) as Hok. unfold weak_weak_count. rewrite Hx.
+    destruct (o_box x) eqn:Eb.
+    - apply okN_notyet in Hok; [|exact Eb]. lia.
+    - destruct (okN_alloc K _ _ _ _ _ Hok Eb) as (_ & _ & _ & _ & O5 & _).
+      destruct (o_side x) as [s|]; [|lia]. destruct O5 as (_ & -> & _ & -> & _). reflexivity.
+    - apply okN_freed in Hok; [|exact Eb]. destruct Hok as (_ & _ & Hs).
+      destruct (o_side x) as [s|]; [|lia]. destruct (sd_freed s); [lia|]. destruct Hs as (_ & -> & _). reflexivity.
+  Qed.
+
+  (** no double free and no use after free was ever logged *)
+  Lemma NoBad_no_event m b o : NoBad m -> In (EBad b o) (log m) -> bad_ok b = true.
+  Proof. unfold NoBad, no_badU. rewrite forallb_forall. intros H Hin. exact (H _ Hin). Qed.
+  Lemma side_freed_once m : NoBad m ->
+    forall o, ~ In (EBad DoubleFree o) (log m) /\ ~ In (EBad UseAfterFree o) (log m) /\
+              ~ In (EBad UseAfterDrop o) (log m) /\ ~ In (EBad DoubleDrop o) (log m).
+  Proof.
+    intros Hnb o. repeat split; intros Hin; apply (NoBad_no_event m _ o Hnb) in Hin; discriminate.
+  Qed.
+
+  (** what [Cc::weak_count] reports (the [wc] component of the observation) *)
+  Lemma obs_weak_count b E self l m r o :
+    SInv K b E [] m -> resolve self l m = (m, Some r) -> read_loc r m = Some o -> good_h m o ->
+    exists rc fin, cmd_obs self l m = ok (emit (EObs o rc (N.of_nat (wrefs m o)) fin true) m) ROk.
+  Proof.
+    intros HI Hres Hr Hg. destruct (obs_never_too_low K b E self l m r o HI Hres Hr Hg) as (x & rc & _ & _ & _ & _ & _ & Hc).
+    eauto.
+  Qed.
+End Weak.
